@@ -9,7 +9,7 @@
 //!
 //! Case file:  threads N | filter FID KIND ARGS | pre T op | prog T op ; op ; .. | sched T T T .. | hist T op
 //!             (pre = quiescent set-up ops, run one at a time BEFORE the forced-schedule phase; hist = after it)
-//! ops:        emit CS | new C FID plain|rlayer|rfilter | drop C | setdefault C | close | setglobal C |
+//! ops:        emit CS | new C FID plain|rlayer|rlayer2|rfilter | drop C | setdefault C | close | setglobal C |
 //!             rebuild | reload C FID
 use std::any::TypeId;
 use std::cell::{Cell, RefCell};
@@ -112,12 +112,19 @@ impl Spec {
         }
     }
     fn boxed_layer(&self) -> Box<dyn Subscribe<Registry> + Send + Sync> {
+        self.boxed_layer_on::<Registry>()
+    }
+    /// the value as a (global) layer on any collector type `S`
+    fn boxed_layer_on<S>(&self) -> Box<dyn Subscribe<S> + Send + Sync>
+    where
+        S: Collect + for<'a> tracing_subscriber::registry::LookupSpan<'a> + 'static,
+    {
         match *self {
             Spec::Level(x) | Spec::LvlNh(x) => Box::new(lf(x)),
             Spec::Targets(a, b) => Box::new(Targets::new().with_target("a", lf(a)).with_target("b", lf(b))),
             Spec::Env(a, b) => Box::new(EnvFilter::new(format!("a={},b={}", lname(a), lname(b)))),
             Spec::Dyn(x, h) => Box::new(
-                DynFilterFn::new(move |m: &Metadata<'_>, _: &Context<'_, Registry>| rank(m.level()) <= x).with_max_level_hint(lf(h)),
+                DynFilterFn::new(move |m: &Metadata<'_>, _: &Context<'_, S>| rank(m.level()) <= x).with_max_level_hint(lf(h)),
             ),
             Spec::NoneF => Box::new(Option::<LevelFilter>::None),
         }
@@ -151,8 +158,11 @@ fn tidx() -> u64 {
     TIDX.with(|t| t.get())
 }
 
+/// the collector type under the reloadable layer of stack shape `rlayer2`: a hintless layer on the registry
+type L2 = tracing_subscriber::subscribe::Layered<NopLayer2, Registry>;
 enum RHandle {
     Layer(reload::Handle<Box<dyn Subscribe<Registry> + Send + Sync>>),
+    Layer2(reload::Handle<Box<dyn Subscribe<L2> + Send + Sync>>),
     Filt(reload::Handle<Box<dyn Filter<Registry> + Send + Sync>>),
 }
 struct Tables {
@@ -246,6 +256,10 @@ impl<C: Collect + 'static> Collect for Observed<C> {
 struct NopLayer;
 impl Subscribe<tracing_subscriber::subscribe::Layered<reload::Subscriber<Box<dyn Subscribe<Registry> + Send + Sync>>, Registry>> for NopLayer {}
 
+/// a layer with no opinion UNDER the reloadable layer (stack shape `rlayer2`: the reloadable layer is not the innermost one)
+struct NopLayer2;
+impl Subscribe<Registry> for NopLayer2 {}
+
 /// recording layer for the per-layer-filter stack
 struct RecLayer { name: u64 }
 impl Subscribe<Registry> for RecLayer {
@@ -283,7 +297,7 @@ fn parse_op(s: &str) -> Option<Op> {
     let n = |i: usize| w.get(i).and_then(|x| x.parse::<usize>().ok());
     Some(match *w.first()? {
         "emit" => Op::Emit(n(1)?),
-        "new" => Op::New(n(1)?, n(2)?, match *w.get(3)? { "plain" => 0, "rlayer" => 1, "rfilter" => 2, _ => return None }),
+        "new" => Op::New(n(1)?, n(2)?, match *w.get(3)? { "plain" => 0, "rlayer" => 1, "rfilter" => 2, "rlayer2" => 3, _ => return None }),
         "drop" => Op::Drop(n(1)?),
         "setdefault" => Op::SetDefault(n(1)?),
         "close" => Op::Close,
@@ -320,6 +334,13 @@ fn run_op(op: &Op) {
                     // NopLayer on top: a stack whose only layer is `None` hints OFF by design (tests/option.rs); with
                     // any other layer present `None` is transparent, which is the documented meaning used by the spec
                     Dispatch::new(Observed { name, inner: Registry::default().with(layer).with(NopLayer), log_enabled: true, deliver_here: true })
+                }
+                3 => {
+                    // the reloadable layer on top of a hintless layer: `Option::None` values must stay transparent
+                    // (hint = whatever the rest agrees on) across reloads between Some and None
+                    let (layer, handle) = reload::Subscriber::new(spec.boxed_layer_on::<L2>());
+                    *tb.rhandles[c].lock().unwrap() = Some(RHandle::Layer2(handle));
+                    Dispatch::new(Observed { name, inner: Registry::default().with(NopLayer2).with(layer), log_enabled: true, deliver_here: true })
                 }
                 _ => {
                     let (filter, handle) = reload::Subscriber::new(spec.boxed_filter());
@@ -362,11 +383,13 @@ fn run_op(op: &Op) {
             // clone the handle out so that no harness mutex is held across a yield point
             let h = match tb.rhandles[c].lock().unwrap().as_ref() {
                 Some(RHandle::Layer(h)) => Some(RHandle::Layer(h.clone())),
+                Some(RHandle::Layer2(h)) => Some(RHandle::Layer2(h.clone())),
                 Some(RHandle::Filt(h)) => Some(RHandle::Filt(h.clone())),
                 None => None,
             };
             let r = match h {
                 Some(RHandle::Layer(h)) => h.reload(spec.boxed_layer()),
+                Some(RHandle::Layer2(h)) => h.reload(spec.boxed_layer_on::<L2>()),
                 Some(RHandle::Filt(h)) => h.reload(spec.boxed_filter()),
                 None => return,
             };
@@ -388,7 +411,13 @@ struct SchedState { free: bool, status: Vec<Status>, go: Vec<bool>, seen: BTreeS
 struct Sched { m: Mutex<SchedState>, cv: Condvar }
 static SCHED: OnceLock<Sched> = OnceLock::new();
 
+/// the yield points of the code this harness schedules (callsite.rs, metadata.rs set_max, dispatch.rs set_global_default,
+/// MacroCallsite, reload.rs) = the `yield_id`s of Dispatch/Sched_Model.v; the set is pinned against the sources by
+/// C04_source_points.  Yield points of other subsystems (e.g. 51-56 in the sharded registry, C05's) are not scheduling points here.
+const MODEL_YIELDS: [u32; 23] = [10, 19, 20, 29, 30, 31, 32, 40, 41, 42, 44, 50, 60, 61, 62, 63, 64, 70, 71, 72, 80, 81, 82];
+
 fn yield_cb(id: u32) {
+    if id != 0 && !MODEL_YIELDS.contains(&id) { return; }   // 0 = between operations (this harness' own point)
     let t = tidx();
     if t == CONTROLLER { return; }
     let t = t as usize;
